@@ -18,6 +18,7 @@ def WriteError(c, reason=None): return [8, c, [] if reason is None else [reason]
 def WriteRedirect(p, perm=False): return [9, p, 1 if perm else 0]
 def WriteJson(src, code, rendered): return [10, src, code, rendered]
 Avail = [11]
+Listen = [12]     # a bytesWritten listener subscribes now (family socklate: the only one)
 # ops
 def Feed(b): return [0, b]
 def Ack(n): return [1, n]
@@ -96,6 +97,11 @@ HNAMES = [b"Host", b"X-A", b"x-a", b"X-a", b"Accept", b"COOKIE", b"Cookie", b"\x
           b"Accept-Encoding", b"accept-language", b"X", b"x-", b"Content", b"Content-Length-Hint", b"Cook", b"HOSTNAME"]
 HVALS = [b"", b"1", b"a, b", b"x:y", b"\xff\x00z", b"v  w", b"localhost:80", b"bytes=0-1"]
 BLANKS = [b"", b" ", b"  ", b"\t", b" \t"]
+# headers a server could be tempted to act on by itself: this library gives them no meaning of their own
+SEMANTIC = [(b"Expect", b"100-continue"), (b"expect", b"100-Continue"), (b"Connection", b"keep-alive"), (b"Connection", b"close"),
+            (b"Connection", b"Upgrade"), (b"Upgrade", b"websocket"), (b"Transfer-Encoding", b"chunked"), (b"TE", b"trailers"),
+            (b"Content-Encoding", b"gzip"), (b"Content-Type", b"multipart/form-data; boundary=x"), (b"If-None-Match", b"*"),
+            (b"Date", b"Sun Nov  6 08:49:37 1994"), (b"Cookie", b"a=\"x   y\"\tz")]
 
 
 def rand_headers(rng, maxn=5):
@@ -104,6 +110,8 @@ def rand_headers(rng, maxn=5):
     for _ in range(rng.range(0, maxn)):
         n = rng.choice(HNAMES)
         v = rng.choice(HVALS)
+        if rng.chance(1, 5):
+            n, v = rng.choice(SEMANTIC)
         line = rng.choice(BLANKS) + n + rng.choice(BLANKS) + b":" + rng.choice(BLANKS) + v + rng.choice(BLANKS)
         out.append((n, v, line))
     return out
